@@ -448,3 +448,17 @@ def _fast_db_path() -> str:
     base = "/dev/shm" if os.path.isdir("/dev/shm") and os.access("/dev/shm", os.W_OK) else tempfile.gettempdir()
     _DB_SEQ[0] += 1
     return os.path.join(base, f"verif_c13_{os.getpid()}_{_DB_SEQ[0]}.db")
+
+
+def sweep_dbs() -> None:
+    """remove this process' scratch sqlite files (a cancelled task may re-create a -wal file after `Stack.cleanup`)"""
+    import glob
+    import os
+    import tempfile
+
+    for base in ("/dev/shm", tempfile.gettempdir()):
+        for fn in glob.glob(os.path.join(base, f"verif_c13_{os.getpid()}_*")):
+            try:
+                os.unlink(fn)
+            except OSError:
+                pass
